@@ -1,5 +1,8 @@
 """F12 formula conformance: normal forms for tiny pure arithmetic predicates."""
 from .lib import *
+import re
+
+_INT_FROM = re.compile(r"^<(u|i)(8|16|32|64|128|size) as std::convert::(From|Into)<(u|i)(8|16|32|64|128|size)>>::(from|into)$")
 
 
 def atom_of(e):
@@ -81,6 +84,8 @@ def poly(e):
                 return {(): v} if v else {}
             return {((op, _key(a), _key(b)),): 1}
         return None
+    if k == "call" and e[2] and _INT_FROM.match(strip_generics(e[1])):
+        return poly(e[2][0])
     if k in ("param", "field", "call", "payload", "local", "phi"):
         return {(atom_of(e),): 1}
     return None
